@@ -457,9 +457,10 @@ func RunMain(propID, tier string) int {
 	if len(incon) > 0 {
 		cov["inconclusive_reasons"] = incon
 	}
+	assumptions := append([]string{"held only on the executions produced by this run (seeded case list); not a proof"}, p.Assumptions...)
 	ev := Evidence{
 		PropertyID: propID, Tier: tier, Seed: int64(seed), Level: p.Level, Coverage: cov,
-		Assumptions: p.Assumptions, WallS: time.Since(start).Seconds(), Violations: total.NumViol, Verdict: verdict,
+		Assumptions: assumptions, WallS: time.Since(start).Seconds(), Violations: total.NumViol, Verdict: verdict,
 	}
 	if err := writeJSON(evPath, &ev); err != nil {
 		fmt.Fprintln(os.Stderr, "cannot write evidence:", err)
@@ -543,6 +544,32 @@ func ReplayMain(path string) int {
 		return 2
 	}
 	fmt.Printf("replaying property=%s seed=%d tier=%s case=%d (recorded class %q)\n", w.Prop, w.Seed, w.Tier, w.Index, w.Class)
+	if w.Index < 0 {
+		// witness of the parent-side pass (e.g. the race-detector pass): re-run that pass
+		if p.Post == nil {
+			fmt.Println("witness has no case index and the property has no parent-side pass")
+			return 2
+		}
+		dir := filepath.Join(outDir(p.ID), "replay")
+		os.RemoveAll(dir)
+		os.MkdirAll(dir, 0o755)
+		pc := &PostCtx{Tier: w.Tier, Seed: w.Seed, OutDir: dir, Counters: map[string]int64{}, Extra: map[string]interface{}{}}
+		p.Post(pc)
+		for _, s := range pc.Incon {
+			fmt.Println("INCONCLUSIVE:", s)
+		}
+		for _, v := range pc.Viol {
+			fmt.Printf("VIOLATION property=%s replay=%s\n  class=%s: %s\n", w.Prop, v.Replay, v.Class, v.Msg)
+		}
+		if len(pc.Viol) > 0 {
+			return 1
+		}
+		if len(pc.Incon) > 0 {
+			return 2
+		}
+		fmt.Println("no violation on replay")
+		return 0
+	}
 	c := newCtx(p.ID, w.Seed, w.Index, w.Tier, true)
 	c.Live = true
 	c.Guard("case", func() { p.Run(c) })
